@@ -3,6 +3,11 @@ let obs_opt_list = function None -> "RAISE" | Some l -> "L " ^ wire_of_strs l
 let model = function
   | ["split"; n; s] -> obs_opt_list (split (str_of_hex n) (str_of_hex s))
   | ["replace"; p; r; s] -> (match replace_all (str_of_hex p) (str_of_hex r) (str_of_hex s) with None -> "HANG" | Some x -> "S " ^ hex_of_str x)
+  | ["replacea"; m; a; b] ->
+      let a = str_of_hex a and b = str_of_hex b in
+      let (p, r, s) = (match m with "1" -> (a, b, a) | "2" -> (b, a, a) | _ -> (a, a, a)) in
+      (match replace_all p r s with None -> "HANG" | Some x -> "S " ^ hex_of_str x)
+  | ["joinw"; i; l] -> "S " ^ hex_of_str (join (str_of_hex i) (strs_of_wire l))
   | ["starts"; f; p] -> if starts_with (str_of_hex f) (str_of_hex p) then "B 1" else "B 0"
   | ["join"; i; l] -> "S " ^ hex_of_str (join (str_of_hex i) (strs_of_wire l))
   | ["joini"; i; l] ->
@@ -19,6 +24,11 @@ let oracle case obs =
       n <> [] && intercalate n l = s && List.for_all (fun p -> not (contains n p)) l
       && List.length l = 1 + int_of_nat (count_nonoverlapping n s)
   | ["replace"; p; r; s], ["S"; x] -> str_of_hex x = spec_replace (str_of_hex p) (str_of_hex r) (str_of_hex s)
+  | ["replacea"; m; a; b], ["S"; x] ->
+      let a = str_of_hex a and b = str_of_hex b in
+      let (p, r, s) = (match m with "1" -> (a, b, a) | "2" -> (b, a, a) | _ -> (a, a, a)) in
+      str_of_hex x = spec_replace p r s
+  | ["joinw"; i; l], ["S"; x] -> str_of_hex x = spec_join (str_of_hex i) (strs_of_wire l)
   | ["starts"; f; p], ["B"; b] -> (b = "1") = prefixb (str_of_hex p) (str_of_hex f)
   | ["join"; i; l], ["S"; x] -> str_of_hex x = spec_join (str_of_hex i) (strs_of_wire l)
   | ["joini"; i; l], ["S"; x] ->
